@@ -306,6 +306,7 @@ static void *_wdog(void *args)
         for (i = 0; t[i].host != NULL; i++) {
             switch (t[i].state) {
             case DSH_RCMD:
+            case DSH_CANCELED:  /* canceled while connecting: still in connect() */
                 if (_thd_connect_timeout (&t[i]))
                         pthread_kill(t[i].thread, SIGALRM);
                 break;
@@ -316,7 +317,6 @@ static void *_wdog(void *args)
             case DSH_NEW:
             case DSH_DONE:
             case DSH_FAILED:
-            case DSH_CANCELED:
                 break;
             }
         }
@@ -870,6 +870,8 @@ static int _thd_init (thd_t *th, opt_t *opt, List pcp_infiles, int i)
     th->luser = opt->luser;        /* general */
     th->ruser = opt->ruser;
     th->state = DSH_NEW;
+    th->start = (time_t) -1;       /* no thread yet, see _thd_connect_timeout() */
+    th->connect = (time_t) -1;
     th->labels = opt->labels;
     th->nodeid = i;
     th->cmd = opt->cmd;
